@@ -148,12 +148,17 @@ def run(tier):
     for p_ in plans[:17]:
         jobs.append(("first-%d" % p_["id"], hzr if p_["id"] % 2 == 0 else hz, 2500, [p_]))
     from concurrent.futures import ThreadPoolExecutor
+    job_wall = {}
+    run.extra["driver_job_wall_s"] = job_wall
     def one(arg):
         name, binp, nbytes, pls = arg
         jp = os.path.join(tmp, "j_%s.json" % name); op = os.path.join(tmp, "o_%s.ndjson" % name)
         with open(jp, "w") as fh:
             json.dump({"nbytes": nbytes, "seed": rng.randrange(1 << 40), "concFirst": name.startswith("first-"), "plans": [{"id": p["id"], "goroutines": p["goroutines"], "tasks": p["tasks"], "rounds": p["rounds"]} for p in pls]}, fh)
+        import time as _t
+        t0 = _t.time()
         p = vlib.run_bin(binp, ["concurrent", jp, op], timeout=6000, env={"GORACE": "halt_on_error=0"})
+        job_wall[name] = round(_t.time() - t0, 1)
         return name, p, (vlib.read_ndjson(op) if os.path.exists(op) else [])
     with ThreadPoolExecutor(max_workers=4) as ex:
         results = list(ex.map(one, jobs))
